@@ -72,31 +72,38 @@ Print Assumptions C18_northing_tolerance_in_degrees.
    (known c = the library has the code) and every third-party transform `tr` (None = it returned an error) ---------------- *)
 
 (* forward, no error: output i is the transform of input i (same length, same order), and carries input i's altitude itself *)
-Theorem C18_forward_length_order_altitude : forall known tr l crs, snd (to_projected known tr l crs) = false ->
+Theorem C18_forward_length_order_altitude : forall known tr l crs, snd (to_projected known tr l crs) = None ->
   Forall2 (fun p q => exists x y z, tr geo_crs crs (plon p) (plat p) (palt p) = Some (x, y, z) /\
                                     px q = x /\ py q = y /\ pz q = palt p) l (fst (to_projected known tr l crs)).
 Proof. exact to_projected_ok. Qed.
 Print Assumptions C18_forward_length_order_altitude.
 
-(* an error is returned exactly when the EPSG code is unknown, or the transform refuses some point, or - backward - object.NewPoint
-   refuses the coordinates the transform returned for some point *)
+(* the second component of a result is the returned error: None = nil, Some k = a SpatialIdError with code k.
+   A conversion error (errors.ValueConvertErrorCode) is returned exactly when the EPSG code is unknown, or the transform refuses some
+   point, or - backward - object.NewPoint refuses the coordinates the transform returned for some point ... *)
 Theorem C18_error_iff_transform_error : forall known tr crs,
-  (forall l, snd (to_projected known tr l crs) = true <->
+  (forall l, snd (to_projected known tr l crs) = Some EValueConvert <->
              known crs = false \/ Exists (fun p => tr geo_crs crs (plon p) (plat p) (palt p) = None) l) /\
-  (forall l, snd (to_geographic known tr l crs) = true <->
+  (forall l, snd (to_geographic known tr l crs) = Some EValueConvert <->
              known crs = false \/
              Exists (fun q => tr crs geo_crs (px q) (py q) (pz q) = None \/
                               exists x y z, tr crs geo_crs (px q) (py q) (pz q) = Some (x, y, z) /\ snd (new_point x y (pz q)) = true) l).
 Proof. exact error_iff. Qed.
 Print Assumptions C18_error_iff_transform_error.
+(* ... and no other kind of error is ever returned *)
+Theorem C18_every_error_is_a_conversion_error : forall known tr crs,
+  (forall l, snd (to_projected known tr l crs) = None \/ snd (to_projected known tr l crs) = Some EValueConvert) /\
+  (forall l, snd (to_geographic known tr l crs) = None \/ snd (to_geographic known tr l crs) = Some EValueConvert).
+Proof. exact error_kind. Qed.
+Print Assumptions C18_every_error_is_a_conversion_error.
 
 (* for a known code, the list returned together with the error holds the images of the points before the first refused one, in order *)
-Theorem C18_forward_error_returns_prefix : forall known tr l crs, known crs = true -> snd (to_projected known tr l crs) = true ->
+Theorem C18_forward_error_returns_prefix : forall known tr l crs, known crs = true -> snd (to_projected known tr l crs) = Some EValueConvert ->
   exists l1 p l2, l = l1 ++ p :: l2 /\ tr geo_crs crs (plon p) (plat p) (palt p) = None /\
                   Forall2 (fwd_rel tr crs) l1 (fst (to_projected known tr l crs)).
 Proof. exact to_projected_err_prefix. Qed.
 Print Assumptions C18_forward_error_returns_prefix.
-Theorem C18_backward_error_returns_prefix : forall known tr l crs, known crs = true -> snd (to_geographic known tr l crs) = true ->
+Theorem C18_backward_error_returns_prefix : forall known tr l crs, known crs = true -> snd (to_geographic known tr l crs) = Some EValueConvert ->
   exists l1 q l2, l = l1 ++ q :: l2 /\ back_refused tr crs q /\ Forall2 (back_rel tr crs) l1 (fst (to_geographic known tr l crs)).
 Proof. exact to_geographic_err_prefix. Qed.
 Print Assumptions C18_backward_error_returns_prefix.
@@ -104,7 +111,7 @@ Print Assumptions C18_backward_error_returns_prefix.
 (* backward, no error: output i is the point NewPoint builds (and accepts) from the transform of input i - longitude as returned,
    latitude truncated by SetLat - and it carries input i's altitude itself: same length, same order, altitude bit for bit.
    (Was `_partial` while NewPoint's verdict was ignored; with dbefda0 no point is ever returned with a lost altitude.) *)
-Theorem C18_backward_length_order_altitude : forall known tr l crs, snd (to_geographic known tr l crs) = false ->
+Theorem C18_backward_length_order_altitude : forall known tr l crs, snd (to_geographic known tr l crs) = None ->
   Forall2 (fun q g => exists x y z, tr crs geo_crs (px q) (py q) (pz q) = Some (x, y, z) /\ snd (new_point x y (pz q)) = false /\
                                     g = {| plon := x; plat := setlat_trunc y; palt := pz q |})
           l (fst (to_geographic known tr l crs)).
@@ -117,7 +124,7 @@ Print Assumptions C18_backward_length_order_altitude.
    high above the ellipsoid: finding alt_fed_to_datum) *)
 Theorem C18_round_trip_structure_partial : forall known tr l crs,
   let r := round_trip known tr l crs in
-  snd (fst r) = false -> snd (snd r) = false ->
+  snd (fst r) = None -> snd (snd r) = None ->
   length (fst (snd r)) = length l /\
   Forall2 (fun p g => exists q, fwd_rel tr crs p q /\ back_rel tr crs q g /\ palt g = palt p) l (fst (snd r)).
 Proof. exact round_trip_shape. Qed.
@@ -125,31 +132,33 @@ Print Assumptions C18_round_trip_structure_partial.
 (* the way back ends in an error exactly when some projected image is refused (by the transform or by NewPoint) *)
 Theorem C18_round_trip_back_error_iff : forall known tr l crs,
   let r := round_trip known tr l crs in
-  snd (fst r) = false -> (snd (snd r) = true <-> Exists (back_refused tr crs) (fst (fst r))).
+  snd (fst r) = None -> (snd (snd r) = Some EValueConvert <-> Exists (back_refused tr crs) (fst (fst r))).
 Proof. exact round_trip_back_error. Qed.
 Print Assumptions C18_round_trip_back_error_iff.
 
-(* an EPSG code the library does not have: conversion error with the empty list, for EVERY input list (the empty one included),
-   in both directions. (Was `_partial`, guarded by l <> [], before e07a6eb.) *)
-Theorem C18_unknown_epsg_is_error : forall known tr crs, known crs = false ->
-  (forall l, to_projected known tr l crs = ([], true)) /\ (forall l, to_geographic known tr l crs = ([], true)).
+(* an EPSG code the library does not have is reported as a CONVERSION error (code ValueConvertError) together with the empty list, for
+   EVERY input list (the empty one included), in both directions. (Was `C18_unknown_epsg_is_error_partial`, guarded by l <> [] and
+   silent about the code, before e07a6eb.) *)
+Theorem C18_unknown_epsg_is_conversion_error : forall known tr crs, known crs = false ->
+  (forall l, to_projected known tr l crs = ([], Some EValueConvert)) /\
+  (forall l, to_geographic known tr l crs = ([], Some EValueConvert)).
 Proof. exact unknown_epsg. Qed.
-Print Assumptions C18_unknown_epsg_is_error.
+Print Assumptions C18_unknown_epsg_is_conversion_error.
 
 (* regression Examples for the two repaired defects: what the current control flow does on the former witnesses, and - clearly
    HISTORICAL - what the control flow before the repairs did (old definitions kept in Project.v for this purpose only) *)
 Example C18_regression_lat_limit_overshoot_now_error :
-  round_trip epsg_known tr_d18 [p_d18] orth_crs = (([q_d18], false), ([], true)).
+  round_trip epsg_known tr_d18 [p_d18] orth_crs = (([q_d18], None), ([], Some EValueConvert)).
 Proof. exact lat_limit_overshoot_now_error. Qed.
 Example C18_HISTORICAL_lat_limit_overshoot_before_dbefda0 :
-  to_geographic_old tr_d18 [q_d18] orth_crs = ([ {| plon := 139; plat := 0; palt := 0 |} ], false).
+  to_geographic_old tr_d18 [q_d18] orth_crs = ([ {| plon := 139; plat := 0; palt := 0 |} ], None).
 Proof. exact lat_limit_overshoot_historical. Qed.
 Example C18_regression_unknown_epsg_empty_list_now_error :
   epsg_known 99999 = false /\
-  forall tr, to_projected epsg_known tr [] 99999 = ([], true) /\ to_geographic epsg_known tr [] 99999 = ([], true).
+  forall tr, to_projected epsg_known tr [] 99999 = ([], Some EValueConvert) /\ to_geographic epsg_known tr [] 99999 = ([], Some EValueConvert).
 Proof. exact unknown_epsg_empty_list_now_error. Qed.
 Example C18_HISTORICAL_unknown_epsg_empty_list_before_e07a6eb :
-  forall tr crs, to_projected_old tr [] crs = ([], false) /\ to_geographic_old tr [] crs = ([], false).
+  forall tr crs, to_projected_old tr [] crs = ([], None) /\ to_geographic_old tr [] crs = ([], None).
 Proof. exact unknown_epsg_empty_list_historical. Qed.
 
 (* ---------------- the run-time checkers decide what they claim ---------------- *)
@@ -206,13 +215,13 @@ Proof. exact domain_nonvacuous. Qed.
 Example C18_wrapper_nonvacuous :
   let tr := fun (_ _ : Z) (a b c : float) => Some ((a + a)%float, (b + 1)%float, 0%float) in
   let l := [ {| plon := 1; plat := 2; palt := 3 |}; {| plon := 1; plat := 2; palt := 4 |} ] in
-  to_projected epsg_known tr l 3857 = ([ {| px := 2; py := 3; pz := 3 |}; {| px := 2; py := 3; pz := 4 |} ], false) /\
-  to_projected epsg_known tr l 3395 = ([], true).
+  to_projected epsg_known tr l 3857 = ([ {| px := 2; py := 3; pz := 3 |}; {| px := 2; py := 3; pz := 4 |} ], None) /\
+  to_projected epsg_known tr l 3395 = ([], Some EValueConvert).
 Proof. exact to_projected_nonvacuous. Qed.
 Example C18_backward_nonvacuous :
   let tr := fun (_ _ : Z) (a b c : float) => Some (a, b, 0%float) in
   to_geographic epsg_known tr [ {| px := 10; py := 20; pz := 0x1.b2fffffffffffp+8 |}; {| px := 10; py := 86; pz := 7 |} ] 3857
-  = ([ {| plon := 10; plat := 20; palt := 0x1.b2fffffffffffp+8 |} ], true).
+  = ([ {| plon := 10; plat := 20; palt := 0x1.b2fffffffffffp+8 |} ], Some EValueConvert).
 Proof. exact to_geographic_nonvacuous. Qed.
 Example C18_checkers_nonvacuous :
   check_x 0x1.d8360270c693ep+23 139 = true /\ check_x 0x1.fc4949270b2dep+21 139 = false /\
